@@ -46,9 +46,18 @@ def plan(tier, seed):
     for spec in specs[-nstress:]:
         spec['mode'] = 'stress'
         spec['lo'], spec['hi'] = 0, (10 if tier == 'quick' else 150)
-    specs[-nstress - 1]['mode'] = 'driver'
-    specs[-nstress - 1]['lo'] = 0
-    specs[-nstress - 1]['hi'] = 12 if tier == 'quick' else 200
+    # every schedule with at most 2 preemptions of tiny graphs, for each
+    # kind of outcome of the first task
+    shapes = ['chain2'] if tier == 'quick' else ['chain2', 'indep+dep',
+                                                 'fork', 'join']
+    for i, shape in enumerate(shapes):
+        specs.append({'prop': PROP, 'tier': tier, 'seed': seed,
+                      'shard': 700 + i, 'mode': 'dfs', 'shape': shape,
+                      'max_runs': 1200 if tier == 'quick' else 30000,
+                      'hashseed': 1})
+    specs[-nstress - 1 - len(shapes)]['mode'] = 'driver'
+    specs[-nstress - 1 - len(shapes)]['lo'] = 0
+    specs[-nstress - 1 - len(shapes)]['hi'] = 12 if tier == 'quick' else 200
     return specs
 
 
@@ -298,7 +307,41 @@ def run_driver(spec, rec):
         shutil.rmtree(tmp, ignore_errors=True)
 
 
+def run_dfs(spec, rec):
+    from vf.props.c01 import SHAPES
+    base = SHAPES[spec['shape']]
+    complete = True
+    for workers in (1, 2):
+        for kind in ('ok', 'raise', 'none', 'nonfinal_pending'):
+            case = dict(base, workers=workers, init={}, cyclic=None,
+                        outcomes={n: ('ok' if n != 'a' else kind)
+                                  for n in base['tasks']})
+
+            def once(strat, case=case):
+                res = H.run_controlled(case, strat)
+                rec.count('evaluations')
+                if res.outcome == 'lost':
+                    rec.count('engine_lost_control')
+                    return
+                rec.count('controlled_runs')
+                rec.count('dfs_runs')
+                judge(res, case, rec, {'engine': 'controlled',
+                                       'choices': res.choices})
+                rec.seen((case_class(case), res.trace_hash))
+            runs, done = C.explore_dfs(once, max_preempt=2,
+                                       max_runs=spec['max_runs'] // 8)
+            complete = complete and done
+            rec.note(f'dfs.{spec["shape"]}.w{workers}.{kind}',
+                     {'runs': runs, 'complete': done})
+    rec.exhaustive[f'schedules<=2preemptions:{spec["shape"]}'] = complete
+
+
 def run(spec, rec):
+    if spec['mode'] == 'dfs':
+        run_dfs(spec, rec)
+        for name in DECIDING:
+            rec.count(name, 0)
+        return
     {'random': run_random, 'stress': run_stress, 'driver': run_driver}[
         spec['mode']](spec, rec)
 
